@@ -1713,7 +1713,8 @@ THEOREMS = {
             "Iauthd.Properties.C04_slots_alive", "Iauthd.Properties.C04_reload_slots", "Iauthd.Properties.C04_tag_readers_agree", "Iauthd.Proto.runOps_refd",
             "Iauthd.Proto.applyConfig_ref", "Iauthd.Proto.xqReply_ref", "Iauthd.Proto.reqEvent_ref"],
     "C05": ["Iauthd.Properties.C05_refusal", "Iauthd.Properties.C05_vouch", "Iauthd.Properties.C05_stamp_shape",
-            "Iauthd.Properties.C05_blank_is_plain", "Iauthd.Properties.C05_dronecheck_no_stamp", "Iauthd.Proto.okStamp_some"],
+            "Iauthd.Properties.C05_blank_is_plain", "Iauthd.Properties.C05_dronecheck_no_stamp", "Iauthd.Proto.okStamp_some",
+            "Iauthd.Properties.C05_ok_readers_agree", "Iauthd.Properties.okStamp_isSome"],
     "C06": ["Iauthd.Properties.C06_query_iff", "Iauthd.Properties.C06_eligible", "Iauthd.Properties.C06_malformed_password",
             "Iauthd.Properties.C06_limits", "Iauthd.Properties.C06_prefix"],
     "C07": ["Iauthd.Properties.C07_event_frame", "Iauthd.Properties.C07_drop_frame", "Iauthd.Properties.C07_reply_frame",
